@@ -385,6 +385,7 @@ fn documents(tier: Tier) -> Vec<A> {
     let mut extra = extra;
     extra.push(A::doc(vec![A::el("", "a").attr("", "k", "x\ty\nz\rw").attr("", "l", " \"'<&> ").child(A::text("a\rb\tc\nd"))]));
     extra.push(A::doc(vec![A::el("u\tv", "a").decl("p", "u\tv").attr("u\tv", "k", "\n").child(A::el("", "b").child(A::text("]]>")))]));
+    extra.push(A::doc(vec![A::el("", "a").attr("", "k", "").attr("", "l", " ").child(A::el("", "b").attr("", "k", ""))]));
     let items = [A::comment("l"), A::pi("x", None)];
     let lead: Vec<Vec<A>> = (0..strings_count(2, 2)).map(|i| nth_string(&items, 2, i)).collect();
     let maxn = tier.pick(5, 6);
